@@ -103,7 +103,7 @@ for a in SCALARS:
         if a in NUM and b in NUM:
             continue
         tier = "quick" if (a in "IN" or b in "IN") and not ({a, b} & {"S", "Y", "T"}) else "thorough"
-        add(f"c03_nonnum_{kn(a)}_{kn(b)}", "C03", tier, uw(a, b),
+        add(f"c03_nonnum_{kn(a)}_{kn(b)}", "C03", tier, max(uw(a, b), 8),
             f"crate::c03::nonnum::<{kt(a)}, {kt(b)}>()", dom(a, b),
             note="non-numeric pairing: + - * / % must each be an error unless it is concatenation or time arithmetic",
             funcs=["<CelValue as Add/Sub/Mul/Div/Rem>"], cap=900)
@@ -203,16 +203,17 @@ for a in SCALARS:
 for a in NUM:
     add(f"c14_float_alias_{kn(a)}", "C14", "thorough", 12, f"crate::c14::to_double::<{kt(a)}>(\"float\")", dom(a), funcs=["construct_type"])
     for (ctor, ty) in [("int", "int"), ("uint", "uint"), ("double", "float"), ("bool", "bool")]:
+        if (ctor, a) in (("int", "U"), ("uint", "I")):
+            continue  # fallible conversion followed by type(): does not finish (15 min)
         add(f"c14_typeofctor_{ctor}_{kn(a)}", "C14", "quick", 12,
             f"crate::c14::type_of_ctor::<{kt(a)}>(\"{ctor}\", \"{ty}\")", dom(a), need=["conversion accepted"], funcs=["construct_type", "type_type::dispatch"])
 add("c14_bytes_string_roundtrip", "C14", "quick", 12, "crate::c14::bytes_string_roundtrip()", {"s": K["S"][2]}, need=["longest"],
     funcs=["bytes_type::dispatch", "string_type::dispatch"])
 add("c14_string_of_bytes", "C14", "quick", 12, "crate::c14::string_of_bytes()", {"b": K["Y"][2]}, need=["two-byte scalar", "invalid UTF-8"],
     funcs=["string_type::dispatch"])
-for ctor in ["int", "uint", "double", "bool", "string", "bytes", "type", "dyn"]:
-    add(f"c14_arity_{ctor}", "C14", "quick" if ctor in ("int", "uint", "double") else "thorough", 12,
-        f"crate::c14::arity(\"{ctor}\")", {"x": "all i64"}, funcs=["construct_type", f"{ctor}_type::dispatch"])
-add("c14_duration_ctor", "C14", "quick", 12, "crate::c14::duration_ctor()", {"secs": "all i64"}, need=["out of range seconds"], funcs=["duration_type::dispatch"])
+for a in "IU":
+    add(f"c14_timestamp_{kn(a)}", "C14", "quick", 12, f"crate::c14::timestamp_ctor::<{kt(a)}>()", dom(a),
+        need=["representable instant"] + (["uint above the int range"] if a == "U" else []), funcs=["timestamp_type::dispatch"], cap=900)
 
 # ---------------------------------------------------------------- C15
 MATH_ARGS = ["I", "U", "F", "B", "N", "S", "D"]
@@ -227,22 +228,10 @@ for a in MATH_ARGS:
         need=["non-positive operand", "positive operand"] if a in "IU" else [], funcs=["math::lg::dispatch"])
     add(f"c15_log_{kn(a)}", "C15", q, max(uw(a), 22), f"crate::c15::ilog::<{kt(a)}>(true)", dom(a),
         need=["non-positive operand", "positive operand"] if a in "IU" else [], funcs=["math::log::dispatch"], cap=900)
-for a in "IU":
-    for b in "IU":
-        add(f"c15_powpred_{kn(a)}_{kn(b)}", "C15", "quick", 66, f"crate::c15::pow_pred::<{kt(a)}, {kt(b)}>()", dom(a, b),
-            note="predicate on the exponent only (negative / above u32::MAX => error); value not compared",
-            funcs=["math::pow::dispatch"], cap=900)
-        add(f"c15_powval_{kn(a)}_{kn(b)}", "C15", "quick", 6, f"crate::c15::pow_val::<{kt(a)}, {kt(b)}>(4)",
-            {"base": K[a][2], "exponent": "0..=4"}, need=["largest exponent"], funcs=["math::pow::dispatch"], cap=900)
-        add(f"c15_powval8_{kn(a)}_{kn(b)}", "C15", "thorough", 6, f"crate::c15::pow_val::<{kt(a)}, {kt(b)}>(8)",
-            {"base": K[a][2], "exponent": "0..=8"}, need=["largest exponent"], funcs=["math::pow::dispatch"], cap=1500)
-for (mn, mc) in [("abs", "Abs"), ("sqrt", "Sqrt"), ("log", "Log"), ("lg", "Lg"), ("ceil", "Ceil"), ("floor", "Floor"), ("round", "Round")]:
-    add(f"c15_arity_{mn}", "C15", "quick", 3, f"crate::c15::math_arity(crate::c01::Math::{mc})", {"x": "all i64"}, funcs=[f"math::{mn}::dispatch"])
-add("c15_arity_pow", "C15", "quick", 3, "crate::c15::pow_arity()", {"x": "all i64"}, funcs=["math::pow::dispatch"])
-add("c15_splitat_ascii", "C15", "quick", 8, "crate::c15::split_at(\"abc\")", {"receiver": "\"abc\" (concrete)", "at": "all i64"},
-    need=["valid offset", "negative offset", "offset past the end"], funcs=["string::split::split_at::dispatch"], cap=600)
-add("c15_splitat_utf8", "C15", "quick", 8, "crate::c15::split_at(\"a\\u{e9}\")", {"receiver": "\"a\\u00e9\" (concrete, 3 bytes)", "at": "all i64"},
-    need=["valid offset", "negative offset", "offset past the end"], funcs=["string::split::split_at::dispatch"], cap=600)
+# pow, and every call with two or more arguments (arity checks included), goes through
+# `let [a0, a1] = args.try_into()` on a heap Vec of two CelValues; CBMC then loses the
+# elements' discriminants and unrolls the recursive drop glue of every variant: does not finish
+# (15 min cap). Not decided here - see DESIGN.md 3/C15.
 
 # ---------------------------------------------------------------- C16
 SHAPES = [("tplusd", "TplusD"), ("dplust", "DplusT"), ("tminusd", "TminusD"), ("tminust", "TminusT"), ("dplusd", "DplusD"), ("dminusd", "DminusD")]
@@ -284,13 +273,8 @@ for a in ["I", "U", "F", "B", "N", "S", "D", "T", "E"]:
             continue  # duration/timestamp parsing of text is outside reach
         add(f"c01_ctor_{ctor}_{kn(a)}", "C01", "quick" if a in "IUF" and ctor in ("int", "uint", "double", "bool", "duration", "timestamp") else "thorough", uwc(a),
             f"crate::c01::construct::<{kt(a)}>(\"{ctor}\")", dom(a), need=["constructor returned"], cap=900, funcs=["construct_type", f"{ctor}_type::dispatch"])
-for a in "IUF":
-    for b in "IUF":
-        add(f"c01_pow_{kn(a)}_{kn(b)}", "C01", "quick", 66, f"crate::c01::pow2::<{kt(a)}, {kt(b)}>()", dom(a, b), need=["pow returned"], cap=900, funcs=["math::pow::dispatch"])
 add("c01_jump_total", "C01", "quick", 3, "crate::c01::jump_total()", {"pc": "all usize", "dist": "all i32", "len": "all usize"},
     need=["jump accepted", "jump rejected"], funcs=["Interpreter::checked_jump_target"])
-add("c01_splitat_ascii", "C01", "quick", 8, "crate::c01::split_at_total(\"abc\")", {"receiver": "\"abc\"", "at": "all i64"}, need=["splitAt returned"], cap=600, funcs=["string::split::split_at::dispatch"])
-add("c01_splitat_utf8", "C01", "quick", 8, "crate::c01::split_at_total(\"a\\u{e9}\")", {"receiver": "\"a\\u00e9\"", "at": "all i64"}, need=["splitAt returned"], cap=600, funcs=["string::split::split_at::dispatch"])
 for a in ["S", "Y", "I", "N"]:
     add(f"c01_size_{kn(a)}", "C01", "quick" if a in "IN" else "thorough", uw(a), f"crate::c01::size_total::<{kt(a)}>()", dom(a), need=["size returned"], funcs=["size::dispatch"])
 for a in ["D", "I", "N"]:
